@@ -34,7 +34,7 @@ func (a *ANSIFragmentFormatter) Format(f *Fragment, orderedTermLocations TermLoc
 	rv := ""
 	curr := f.Start
 	for _, termLocation := range orderedTermLocations {
-		if termLocation == nil {
+		if termLocation == nil || !termLocation.inBounds(len(f.Orig)) {
 			continue
 		}
 		if termLocation.Start < curr {
